@@ -8,3 +8,4 @@ INFO = {'not_decided': ['correspondence of diagnostics order (follows region reg
                           '(frame scan): an obligation discharged with symbolic positions constrained only by token order holds for every layout'],
         'trusted': []}
 import contracts.composition  # noqa
+import props._all  # noqa
